@@ -290,6 +290,8 @@ def check(ctx):
     # C01.R1.passed-through-nan-free (all results_* columns of the units taken from the feed are filled with 0).
     n8 = ctx.borrow("C01", "C01.R1.passed-through-nan-free", "C11.R8.nan-free", "one empty extra row would overwrite the numbers of groups it does not belong to")
     ctx.sites("C11.R8", n8, 1, "nan-free obligation restated from C01.R1")
+    n9 = ctx.borrow("C01", "C01.R8.feed-complete", "C11.R9.feed-complete", "an unexpected unit that is filtered out of the feed adds its votes nowhere")
+    ctx.sites("C11.R9", n9, 1, "feed-complete obligation restated from C01.R8")
 
 
 def _fix_conds(v, extra):
